@@ -63,6 +63,12 @@ func genC15(r *simrt.Rand, tier string) (Cfg, *Program) {
 		// a queue handle is closed (often an empty, drained one): the others keep their order
 		pf.Cancellers, pf.CancelOps = [2]int{1, 1}, [2]int{1, 2}
 		pf.Cancel = []wop{{opCloseQueue, 1}}
+		if !static && r.Chance(50) {
+			// or emptied by a Purge (often of an already empty queue) and filled again: what
+			// it reports as its length afterwards is what the selection goes by
+			pf.Cancel = []wop{{opPurge, 1}}
+			pf.CancelOps = [2]int{1, 3}
+		}
 	}
 	c, p := generate(r, pf)
 	c.StartPaused = static
@@ -88,7 +94,22 @@ func genC15(r *simrt.Rand, tier string) (Cfg, *Program) {
 	} else if len(late) > 0 {
 		p.Tasks = append(p.Tasks, late)
 	}
-	if !static && r.Chance(20) {
+	if !static && len(late) == 0 && r.Chance(12) {
+		// a queue bound while the worker is stopped (between Stop and Restart) is bound like any
+		// other: after the Restart its jobs take part in the selection
+		var ops []Op
+		for k := r.Intn(5); k > 0; k-- {
+			ops = append(ops, Op{K: opYield})
+		}
+		ops = append(ops, Op{K: opStop}, Op{K: opBind, A: pick(r, memKinds)}, Op{K: opRestart})
+		for k := 1 + r.Intn(3); k > 0; k-- {
+			n := len(p.Subs)
+			q := len(c.Queues)
+			p.Subs = append(p.Subs, SubT{N: n, Q: q, Batch: -1})
+			ops = append(ops, Op{K: opAdd, Q: q, Subs: []int{n}})
+		}
+		p.Tasks = append(p.Tasks, ops)
+	} else if !static && r.Chance(20) {
 		// several goroutines bind further queues at the same time and submit to them: every
 		// one of these queues must be served (the binding order is ambiguous then, so the
 		// order clauses are not evaluated for such an episode)
@@ -162,6 +183,14 @@ func judgeC15(j *judgeCtx) {
 	}
 	nq := len(wd.qs)
 	disp := j.dispatches()
+	// two dispatching goroutines (after a Restart the event loop of the previous run can still
+	// be on its last pass, with the signal it was left when the run was stopped): the order in
+	// which jobs leave the queues is not the order in which the queues were selected
+	for _, d := range disp {
+		if d.Task != disp[0].Task {
+			return
+		}
+	}
 	strat := Strategy(wd.cfg.Strategy)
 	if wd.cfg.StartPaused {
 		// static: the populations at the first Resume, then exact bookkeeping
@@ -266,6 +295,20 @@ func judgeC15(j *judgeCtx) {
 				}
 			}
 		}
+		// a Purge running inside the window changes lengths between two comparisons of one
+		// selection (and turns a selected queue into an empty one): no verdict on this choice
+		purged := false
+		for _, c := range j.r.calls {
+			if c.K == opPurge && c.Inv < d.Seq && (c.Ret == 0 || c.Ret > from) {
+				purged = true
+			}
+		}
+		if purged {
+			prevFromByTask[task] = from
+			lastByTask[task] = d.Seq
+			prevQByTask[task] = d.Q
+			continue
+		}
 		switch strat {
 		case MaxLen:
 			for q := 0; q < nq; q++ {
@@ -306,6 +349,11 @@ func judgeC15(j *judgeCtx) {
 	// RoundRobin: equal share while two queues are both non-empty throughout
 	if strat != RoundRobin {
 		return
+	}
+	for _, c := range j.r.calls {
+		if c.K == opPurge {
+			return
+		}
 	}
 	// content of every queue over time: +1 at the enqueue record, -1 at the dequeue record
 	type ev struct {
